@@ -262,6 +262,46 @@ func c15Run(c *fw.Ctx, b fw.Batch) {
 				}
 			}
 		}
+	case "extend":
+		// names and aliases registered at run time resolve too - also when they
+		// were looked up (and not found) before the registration
+		for i := 0; i < b.N; i++ {
+			name := fmt.Sprintf("application/x-verif-c15-%d-%d", b.Idx, i)
+			var als []string
+			for k := r.Intn(4); k > 0; k-- {
+				als = append(als, fmt.Sprintf("application/x-verif-c15-alias-%d-%d-%d", b.Idx, i, k))
+			}
+			asked := r.Intn(2) == 0
+			if asked {
+				for _, nm := range append([]string{name}, als...) {
+					if mimetype.Lookup(nm) != nil {
+						c.Violate("lookup-is", "lookup-before "+nm, "Lookup found "+nm+" before it was registered", c15Payload{What: "extend", S: nm})
+					}
+				}
+			}
+			parent := []string{"", "text/plain", "application/zip", "application/json"}[r.Intn(4)]
+			det := func([]byte, uint32) bool { return false }
+			if parent == "" {
+				mimetype.Extend(det, name, ".c15", als...)
+			} else {
+				mimetype.Lookup(parent).Extend(det, name, ".c15", als...)
+			}
+			for _, nm := range append([]string{name}, als...) {
+				lk := mimetype.Lookup(nm)
+				c.Eval(1)
+				c.Count("runtime_registered_names_checked", 1)
+				if lk == nil || lk.String() != name || !lk.Is(nm) || !lk.Is(c15Decorate(r, nm)) {
+					c.Violate("lookup-is", "lookup-after-extend asked-before="+fmt.Sprint(asked), fmt.Sprintf("%q was registered (name %s, aliases %v, looked up before registration: %v) but Lookup(%q) = %v does not resolve to a format that Is it", nm, name, als, asked, nm, lk), c15Payload{What: "extend", S: nm})
+				}
+				if asked {
+					c.Distinct("ext-asked|" + fmt.Sprint(len(als)))
+				}
+			}
+			if i%200 == 199 {
+				mimetype.VerifResetTree()
+			}
+		}
+		mimetype.VerifResetTree()
 	case "results":
 		seeds := lib.Seeds()
 		for i := 0; i < b.N; i++ {
@@ -300,7 +340,7 @@ func init() {
 	fw.Register(&fw.Prop{
 		ID:    "C15",
 		Level: "exploration",
-		Rule: "exhaustive (format x registered name/alias) matrix undecorated, plus k random decorations per pair: upper / random letter case, surrounding space / TAB / CR / LF (also between the subtype and ';'), 0-4 well-formed distinct parameters (tokens, quoted strings containing ; , = \\\" \\\\, RFC 2231 charset/language and continuation forms), a trailing ';'; unregistered look-alike names; EqualsAny over decorated pairs of registered names with decoys; every registered name and alias through Lookup(a).Is(a); detection results from seeds, hostile charset labels (incl. labels that contain '; charset=…'), generated HTML and text: d.Is(d.String()), EqualsAny(d.String(), d.String()), Lookup(bare type).Is(d.String()), and every ancestor of the result answers to all names and aliases of its format. " +
+		Rule: "exhaustive (format x registered name/alias) matrix undecorated, plus k random decorations per pair: upper / random letter case, surrounding space / TAB / CR / LF (also between the subtype and ';'), 0-4 well-formed distinct parameters (tokens, quoted strings containing ; , = \\\" \\\\, RFC 2231 charset/language and continuation forms), a trailing ';'; unregistered look-alike names; EqualsAny over decorated pairs of registered names with decoys; every registered name and alias through Lookup(a).Is(a), including names and aliases registered at run time through Extend (half of them looked up, and not found, before their registration); detection results from seeds, hostile charset labels (incl. labels that contain '; charset=…'), generated HTML and text: d.Is(d.String()), EqualsAny(d.String(), d.String()), Lookup(bare type).Is(d.String()), and every ancestor of the result answers to all names and aliases of its format. " +
 			"non-trivial = a pair where the helper must answer true (name or alias of the format) or a result whose String() carries a quoted / RFC 2231 parameter; distinct = distinct (format, name) pairs / names / result byte-class signatures.",
 		Assumptions: []string{
 			"well-formed parameters only (no malformed or duplicate parameter lists on the argument side)",
@@ -316,6 +356,7 @@ func init() {
 			bs = append(bs, batches("matrix", 10, km, 1800)...)
 			bs = append(bs, batches("equalsany", 3, ke, 1800)...)
 			bs = append(bs, batches("results", 3, nr, 1800)...)
+			bs = append(bs, batches("extend", 1, nr/20, 1800)...)
 			return bs
 		},
 		Run: c15Run,
@@ -341,6 +382,8 @@ func init() {
 				}
 			case "result":
 				c15CheckResult(c, baseTree(), "replay", p.In, p.Lim)
+			case "extend":
+				c15Run(c, fw.Batch{Kind: "extend", N: 500, Idx: 99})
 			case "lookup":
 				lk := mimetype.Lookup(p.S)
 				if lk == nil || !lk.Is(p.S) {
